@@ -72,6 +72,9 @@ class RunFaults(FaultPolicy):
     def subscr_may_raise(self, node) -> bool:
         return id(node) in self.faulty_subscripts
 
+    def member_may_raise(self, node) -> bool:
+        return id(node) in self.faulty_subscripts
+
 
 _mr_cache: Dict[int, Dict[str, bool]] = {}
 
